@@ -453,7 +453,8 @@ impl OutputList {
     }
 
     pub fn write_to(&self, writer: &mut dyn Write) -> Result<()> {
-        let mut writer = Writer::new(writer);
+        let mut guard = XmlCharGuard(writer);
+        let mut writer = Writer::new(&mut guard);
 
         // Separate buffer for coalescing text events
         let mut text_buf = String::new();
@@ -525,6 +526,36 @@ impl IntoIterator for OutputList {
 
     fn into_iter(self) -> Self::IntoIter {
         self.events.into_iter()
+    }
+}
+
+/// XML 1.0 has no way to write the C0 control characters other than tab, LF and CR, nor
+/// U+FFFE / U+FFFF - not even as character references. Content that holds one (it can
+/// arrive through a reference such as `&#2;`, which the reader resolves) is refused, so
+/// that whatever is written is well-formed.
+struct XmlCharGuard<'a>(&'a mut dyn Write);
+
+impl Write for XmlCharGuard<'_> {
+    fn write(&mut self, buf: &[u8]) -> std::io::Result<usize> {
+        let control = buf
+            .iter()
+            .find(|b| matches!(**b, 0x00..=0x08 | 0x0B | 0x0C | 0x0E..=0x1F))
+            .map(|b| u32::from(*b));
+        let nonchar = buf
+            .windows(3)
+            .find(|w| w[0] == 0xEF && w[1] == 0xBF && (w[2] == 0xBE || w[2] == 0xBF))
+            .map(|w| 0xFFC0 + u32::from(w[2] & 0x3F));
+        if let Some(c) = control.or(nonchar) {
+            return Err(std::io::Error::new(
+                std::io::ErrorKind::InvalidData,
+                format!("character U+{c:04X} cannot be written in XML"),
+            ));
+        }
+        self.0.write(buf)
+    }
+
+    fn flush(&mut self) -> std::io::Result<()> {
+        self.0.flush()
     }
 }
 
